@@ -181,7 +181,8 @@ Section Invariants.
   Variable frags : list fragment.
   Variable cv : list (str * value).
 
-  Definition errs_ok (j : json) (es : list path) : Prop := Forall (fun e => hits_null e j = true) es.
+  Definition errs_ok (j : json) (es : list err) : Prop :=
+    Forall (fun e : err => hits_null (fst e) j = true) es.
 
   Definition out_ok (P : json -> Prop) (o : out) : Prop :=
     let '(r, es, cs) := o in
@@ -214,12 +215,12 @@ Section Invariants.
     destruct (is_nonnull t) eqn:E; [trivial|].
     intros [Hc _]. split; [exact Hc|]. split.
     - apply sh_null. exact E.
-    - apply Forall_forall. intros e _. destruct e; reflexivity.
+    - apply Forall_forall. intros [p c] _. destruct p; reflexivity.
   Qed.
 
   (* ---- the loop over list items ---- *)
-  Definition hits_from (i : nat) (js : list json) (e : path) : Prop :=
-    match e with
+  Definition hits_from (i : nat) (js : list json) (e : err) : Prop :=
+    match fst e with
     | PIdx i' :: r => (i <= i')%nat /\ exists j, nth_error js (i' - i) = Some j /\ hits_null r j = true
     | _ => False
     end.
@@ -248,7 +249,7 @@ Section Invariants.
           -- unfold pre_errs. apply Forall_map. eapply Forall_impl; [|exact He].
              intros e Hn. cbn. split; [lia|]. exists j. rewrite Nat.sub_diag. split; [reflexivity|exact Hn].
           -- eapply Forall_impl; [|exact Hes]. intros e. unfold hits_from.
-             destruct e as [|[k|i'] e']; try tauto. intros [Hle [j' [Hn Hh]]].
+             destruct e as [[|[k|i'] e'] c]; cbn [fst]; try tauto. intros [Hle [j' [Hn Hh]]].
              split; [lia|]. exists j'. split; [|exact Hh].
              replace (i' - i)%nat with (S (i' - S i)) by lia. exact Hn.
         * intro Hnil. apply app_eq_nil in Hnil. destruct Hnil as [_ Hnil]. apply Hr'. exact Hnil.
@@ -277,7 +278,7 @@ Section Invariants.
     ~ In k (keys kvs) -> errs_ok (JObj kvs) es -> errs_ok (JObj ((k, j) :: kvs)) es.
   Proof.
     intros Hk. unfold errs_ok. apply Forall_impl. intros e.
-    destruct e as [|[k'|i] r]; cbn [hits_null]; try discriminate.
+    destruct e as [[|[k'|i] r] c]; cbn [fst hits_null]; try discriminate.
     - cbn [lookup]. destruct (lookup k' kvs) as [j'|] eqn:El; [|discriminate].
       destruct (str_eqb k' k) eqn:E.
       + apply str_eqb_eq in E. subst. apply lookup_In_keys in El. contradiction.
@@ -324,7 +325,7 @@ Section Invariants.
                 ** eapply shf_field; eassumption.
              ++ apply Forall_app; split.
                 ** unfold pre_errs. apply Forall_map. eapply Forall_impl; [|exact He].
-                   intros e Hn. cbn [hits_null lookup]. rewrite str_eqb_refl. exact Hn.
+                   intros e Hn. cbn [fst hits_null lookup]. rewrite str_eqb_refl. exact Hn.
                 ** apply errs_ok_cons_other; assumption.
              ++ intros k' [<-|Hin]; [left; reflexivity | right; apply Hk; exact Hin].
           -- intro Hnil. apply app_eq_nil in Hnil. destruct Hnil as [_ Hnil]. apply Hr'. exact Hnil.
@@ -332,7 +333,7 @@ Section Invariants.
           apply pre_errs_nonempty. exact Hrx.
   Qed.
 
-  Lemma raise_ok P : out_ok P raise_here.
+  Lemma raise_ok P c : out_ok P (raise_here c).
   Proof. cbn. split; [constructor | discriminate]. Qed.
 
   Lemma null_ok t sels : is_nonnull t = false -> out_ok (shaped s frags cv t sels) (CVal JNull, [], []).
@@ -352,7 +353,7 @@ Section Invariants.
 
   Lemma hits_from_zero js es : Forall (hits_from 0 js) es -> errs_ok (JList js) es.
   Proof.
-    apply Forall_impl. intros e. unfold hits_from. destruct e as [|[k|i] r]; try tauto.
+    apply Forall_impl. intros e. unfold hits_from. destruct e as [[|[k|i] r] c]; cbn [fst]; try tauto.
     intros [_ [j [Hn Hh]]]. cbn [hits_null]. rewrite Nat.sub_0_r in Hn. rewrite Hn. exact Hh.
   Qed.
 
@@ -385,7 +386,7 @@ Section Invariants.
         | None => Some FSkip
         | Some fd =>
           match coerce_args s cv (f_args fd) (fs_args f1) with
-          | None => Some (FRes (catch (f_type fd) raise_here))
+          | None => Some (FRes (catch (f_type fd) (raise_here CauseArgs)))
           | Some args =>
             match complete s frags cv f (f_type fd) (merged_sels fs)
                     match lookup (fs_name f1) obj with Some d => d | None => DNull end with
@@ -401,13 +402,13 @@ Section Invariants.
   Lemma complete_S f t sels d :
     complete s frags cv (S f) t sels d =
     match d with
-    | DRaise => Some raise_here
+    | DRaise => Some (raise_here CauseRaise)
     | _ =>
       match t with
       | TNonNull t' =>
           match complete s frags cv f t' sels d with
           | None => None
-          | Some (CVal JNull, es, cs) => Some (CErr, es ++ [[]], cs)
+          | Some (CVal JNull, es, cs) => Some (CErr, es ++ [([], CauseNull)], cs)
           | Some o => Some o
           end
       | TList it =>
@@ -419,7 +420,7 @@ Section Invariants.
               | Some (Some js, es, cs) => Some (CVal (JList js), es, cs)
               | Some (None, es, cs) => Some (CErr, es, cs)
               end
-          | _ => Some raise_here
+          | _ => Some (raise_here CauseNonList)
           end
       | TNamed n =>
           match d with
@@ -429,25 +430,25 @@ Section Invariants.
             | Some (TObject _ _) =>
                 match d with
                 | DObj _ flds => exec_sels s frags cv f n flds sels
-                | _ => Some raise_here
+                | _ => Some (raise_here CauseType)
                 end
             | Some (TInterface _) | Some (TUnion _) =>
                 match d with
                 | DObj rt flds =>
                     if is_object s rt && possible s n rt then exec_sels s frags cv f rt flds sels
-                    else Some raise_here
-                | _ => Some raise_here
+                    else Some (raise_here CauseType)
+                | _ => Some (raise_here CauseType)
                 end
             | Some td =>
                 match d with
                 | DLeaf l =>
                     match complete_leaf td l with
                     | Some j => Some (CVal j, [], [])
-                    | None => Some raise_here
+                    | None => Some (raise_here CauseLeaf)
                     end
-                | _ => Some raise_here
+                | _ => Some (raise_here CauseLeaf)
                 end
-            | None => Some raise_here
+            | None => Some (raise_here CauseType)
             end
           end
       end
@@ -496,7 +497,7 @@ Section Invariants.
         { pose proof (IHc _ _ _ _ Ecp) as [Hc Hr]. split; [|exact Hr].
           constructor; [|exact Hc]. cbn. exists rt, fd, (fs_args f1). split; assumption. }
         injection H as <-. exact (W _ Ho).
-      + injection H as <-. exact (W _ (raise_ok _)).
+      + injection H as <-. exact (W _ (raise_ok _ _)).
     - (* exec_field, skipped *)
       intros rt obj fs H. rewrite exec_field_S in H.
       destruct fs as [|f1 fs']; [exact I|]. cbn.
@@ -511,7 +512,7 @@ Section Invariants.
       assert (HN : forall t' , t = TNonNull t' ->
                 match complete s frags cv f t' sels d with
                 | None => None
-                | Some (CVal JNull, es, cs) => Some (CErr, es ++ [[]], cs)
+                | Some (CVal JNull, es, cs) => Some (CErr, es ++ [([], CauseNull)], cs)
                 | Some o => Some o
                 end = Some o -> out_ok (shaped s frags cv t sels) o).
       { intros t' -> HH.
@@ -631,7 +632,7 @@ Theorem response_invariants fuel s d vars root j es cs :
     (* shape *)
     (j = JNull \/ exists kvs, j = JObj kvs /\ shaped_obj s (d_frags d) cv tn (d_sels d) kvs) /\
     (* every error path leads to a null *)
-    Forall (fun e => hits_null e j = true) es /\
+    Forall (fun e : err => hits_null (fst e) j = true) es /\
     (* a null response has an error *)
     (j = JNull -> es <> []) /\
     (* resolver arguments *)
@@ -649,7 +650,7 @@ Proof.
     + exact Hc.
   - repeat split.
     + left. reflexivity.
-    + apply Forall_forall. intros e _. destruct e; reflexivity.
+    + apply Forall_forall. intros [p c] _. destruct p; reflexivity.
     + intros _. exact Hr.
     + exact Hc.
 Qed.
@@ -690,4 +691,201 @@ Proof.
     + apply group_keys.
     + eapply collect_nodup. exact H.
   - rewrite H in G. discriminate.
+Qed.
+
+(* ------------------------------------------------------------------ fuel is only fuel *)
+
+Section FuelMono.
+  Variable s : schema.
+  Variable frags : list fragment.
+  Variable cv : list (str * value).
+
+  Lemma collect_list_mono tn A add (rec rec' : list selection -> list str * A -> option (list str * A)) :
+    (forall sels st r, rec sels st = Some r -> rec' sels st = Some r) ->
+    forall sels st r, collect_list s frags cv tn A add rec sels st = Some r ->
+                      collect_list s frags cv tn A add rec' sels st = Some r.
+  Proof.
+    intros Hrec. induction sels as [|x rest IH]; intros st r H; [exact H|].
+    destruct x as [al name args dirs sub | name dirs | tc dirs sub]; cbn [collect_list] in *.
+    - destruct (should_include cv dirs); apply IH; exact H.
+    - destruct (negb (should_include cv dirs)); [apply IH; exact H|].
+      destruct (mem name (fst st)); [apply IH; exact H|].
+      destruct (find_frag name frags) as [fr|]; [|apply IH; exact H].
+      destruct (cond_matches s (fr_cond fr) tn); [|apply IH; exact H].
+      destruct (rec (fr_sels fr) (name :: fst st, snd st)) as [st'|] eqn:Er; [|discriminate].
+      rewrite (Hrec _ _ _ Er). apply IH. exact H.
+    - destruct (should_include cv dirs && match tc with Some c => cond_matches s c tn | None => true end);
+        [|apply IH; exact H].
+      destruct (rec sub st) as [st'|] eqn:Er; [|discriminate].
+      rewrite (Hrec _ _ _ Er). apply IH. exact H.
+  Qed.
+
+  Lemma collect_gen_mono tn A add : forall f f', (f <= f')%nat -> forall sels st r,
+    collect_gen s frags cv tn A add f sels st = Some r ->
+    collect_gen s frags cv tn A add f' sels st = Some r.
+  Proof.
+    induction f as [|f IH]; intros f' Hle sels st r H; [discriminate|].
+    destruct f' as [|f']; [lia|]. cbn [collect_gen] in *.
+    eapply collect_list_mono; [|exact H]. intros sels0 st0 r0. apply IH. lia.
+  Qed.
+
+  Lemma exec_groups_mono (ef ef' : list fieldsel -> option fres) :
+    (forall fs r, ef fs = Some r -> ef' fs = Some r) ->
+    forall g o, exec_groups ef g = Some o -> exec_groups ef' g = Some o.
+  Proof.
+    intros Hef. induction g as [|[k fs] rest IH]; intros o H; [exact H|].
+    cbn [exec_groups] in *. destruct (ef fs) as [r|] eqn:Ef; [|discriminate].
+    rewrite (Hef _ _ Ef). destruct r as [|[[[j|] es] cs]].
+    - apply IH. exact H.
+    - destruct (exec_groups ef rest) as [o'|] eqn:Er; [|discriminate]. rewrite (IH _ eq_refl). exact H.
+    - exact H.
+  Qed.
+
+  Lemma complete_items_mono (cf cf' : data -> option out) :
+    (forall x r, cf x = Some r -> cf' x = Some r) ->
+    forall items i o, complete_items cf items i = Some o -> complete_items cf' items i = Some o.
+  Proof.
+    intros Hcf. induction items as [|x rest IH]; intros i o H; [exact H|].
+    cbn [complete_items] in *. destruct (cf x) as [r|] eqn:Ec; [|discriminate].
+    rewrite (Hcf _ _ Ec). destruct r as [[[j|] es] cs].
+    - destruct (complete_items cf rest (S i)) as [o'|] eqn:Er; [|discriminate].
+      rewrite (IH _ _ Er). exact H.
+    - exact H.
+  Qed.
+
+  Theorem exec_mono : forall f,
+    (forall f', (f <= f')%nat -> forall tn obj sels o,
+        exec_sels s frags cv f tn obj sels = Some o -> exec_sels s frags cv f' tn obj sels = Some o) /\
+    (forall f', (f <= f')%nat -> forall tn obj fs o,
+        exec_field s frags cv f tn obj fs = Some o -> exec_field s frags cv f' tn obj fs = Some o) /\
+    (forall f', (f <= f')%nat -> forall t sels d o,
+        complete s frags cv f t sels d = Some o -> complete s frags cv f' t sels d = Some o).
+  Proof.
+    induction f as [|f [IHs [IHf IHc]]].
+    { repeat split; intros; discriminate. }
+    repeat split; intros f' Hle; (destruct f' as [|f']; [lia|]); assert (Hle' : (f <= f')%nat) by lia.
+    - intros tn obj sels o H. rewrite exec_sels_S in *.
+      destruct (collect s frags cv tn f sels ([], [])) as [[v g]|] eqn:Ec; [|discriminate].
+      unfold collect in *. rewrite (collect_gen_mono tn _ _ f f' Hle' _ _ _ Ec).
+      destruct (exec_groups (exec_field s frags cv f tn obj) g) as [o'|] eqn:Eg; [|discriminate].
+      rewrite (exec_groups_mono _ (exec_field s frags cv f' tn obj) (fun fs r => IHf f' Hle' tn obj fs r) _ _ Eg).
+      exact H.
+    - intros tn obj fs o H. rewrite exec_field_S in *.
+      destruct fs as [|f1 fs']; [exact H|].
+      destruct (str_eqb (fs_name f1) n_typename); [exact H|].
+      destruct (lookup_field s tn (fs_name f1)) as [fd|]; [|exact H].
+      destruct (coerce_args s cv (f_args fd) (fs_args f1)) as [args|]; [|exact H].
+      destruct (complete s frags cv f (f_type fd) (merged_sels (f1 :: fs')) _) as [o'|] eqn:Ecp; [|discriminate].
+      rewrite (IHc f' Hle' _ _ _ _ Ecp). exact H.
+    - intros t sels d o H. rewrite complete_S in *.
+      destruct d as [|l|tn flds|items|]; try exact H.
+      + destruct t as [n|it|t']; try exact H.
+        destruct (complete s frags cv f t' sels DNull) as [o'|] eqn:Ecp; [|discriminate].
+        rewrite (IHc f' Hle' _ _ _ _ Ecp). exact H.
+      + destruct t as [n|it|t']; try exact H.
+        destruct (complete s frags cv f t' sels (DLeaf l)) as [o'|] eqn:Ecp; [|discriminate].
+        rewrite (IHc f' Hle' _ _ _ _ Ecp). exact H.
+      + destruct t as [n|it|t']; try exact H.
+        * destruct (lookup_type s n) as [[| |ofs ifs|ifs|ms]|]; try exact H.
+          -- apply IHs; assumption.
+          -- destruct (is_object s tn && possible s n tn); [apply IHs; assumption | exact H].
+          -- destruct (is_object s tn && possible s n tn); [apply IHs; assumption | exact H].
+        * destruct (complete s frags cv f t' sels (DObj tn flds)) as [o'|] eqn:Ecp; [|discriminate].
+          rewrite (IHc f' Hle' _ _ _ _ Ecp). exact H.
+      + destruct t as [n|it|t']; try exact H.
+        * destruct (complete_items (fun x => option_map (catch it) (complete s frags cv f it sels x)) items O)
+            as [o'|] eqn:Ei; [|discriminate].
+          assert (Hcf : forall x r,
+                    option_map (catch it) (complete s frags cv f it sels x) = Some r ->
+                    option_map (catch it) (complete s frags cv f' it sels x) = Some r).
+          { intros x r Hx. destruct (complete s frags cv f it sels x) as [o0|] eqn:E0; [|discriminate].
+            rewrite (IHc f' Hle' _ _ _ _ E0). exact Hx. }
+          rewrite (complete_items_mono _ (fun x => option_map (catch it) (complete s frags cv f' it sels x))
+                     Hcf _ _ _ Ei). exact H.
+        * destruct (complete s frags cv f t' sels (DList items)) as [o'|] eqn:Ecp; [|discriminate].
+          rewrite (IHc f' Hle' _ _ _ _ Ecp). exact H.
+  Qed.
+End FuelMono.
+
+(* more fuel never changes an answer *)
+Theorem execute_fuel_mono f f' s d vars root :
+  (f <= f')%nat -> execute_fuel f s d vars root <> OutOfFuelR ->
+  execute_fuel f' s d vars root = execute_fuel f s d vars root.
+Proof.
+  intros Hle. unfold execute_fuel.
+  destruct (coerce_variable_values s (d_vars d) vars) as [cv|]; [|reflexivity].
+  destruct (root_type s (d_kind d)) as [tn|]; [|reflexivity].
+  destruct (negb (is_object s tn)); [reflexivity|].
+  destruct (exec_sels s (d_frags d) cv f tn _ (d_sels d)) as [o|] eqn:E; [|congruence].
+  intros _. destruct (exec_mono s (d_frags d) cv f) as [Hs _].
+  rewrite (Hs f' Hle _ _ _ _ E). reflexivity.
+Qed.
+
+(* the response does not depend on the fuel: any two runs that are not out of fuel agree *)
+Theorem execute_fuel_independent f1 f2 s d vars root :
+  execute_fuel f1 s d vars root <> OutOfFuelR -> execute_fuel f2 s d vars root <> OutOfFuelR ->
+  execute_fuel f1 s d vars root = execute_fuel f2 s d vars root.
+Proof.
+  intros H1 H2.
+  rewrite <- (execute_fuel_mono f1 (Nat.max f1 f2) s d vars root (Nat.le_max_l _ _) H1).
+  rewrite <- (execute_fuel_mono f2 (Nat.max f1 f2) s d vars root (Nat.le_max_r _ _) H2).
+  reflexivity.
+Qed.
+
+(* ------------------------------------------------------------------ every null is accounted for *)
+
+(* value completion itself yields null only for a null value (errors are caught by the callers) *)
+Lemma complete_null s frags cv fuel t sels d es cs :
+  complete s frags cv fuel t sels d = Some (CVal JNull, es, cs) -> d = DNull /\ es = [].
+Proof.
+  destruct fuel as [|f]; [discriminate|]. rewrite complete_S.
+  assert (HS : forall rt flds, exec_sels s frags cv f rt flds sels <> Some (CVal JNull, es, cs)).
+  { intros rt flds HH. destruct f as [|f0]; [discriminate|]. rewrite exec_sels_S in HH.
+    destruct (collect s frags cv rt f0 sels ([], [])) as [[v g]|]; [|discriminate].
+    destruct (exec_groups (exec_field s frags cv f0 rt flds) g) as [[[[kvs|] es0] cs0]|]; discriminate. }
+  assert (HN : forall t', match complete s frags cv f t' sels d with
+                          | None => None
+                          | Some (CVal JNull, es, cs) => Some (CErr, es ++ [([], CauseNull)], cs)
+                          | Some o => Some o
+                          end <> Some (CVal JNull, es, cs)).
+  { intros t' HH. destruct (complete s frags cv f t' sels d) as [[[[j|] es0] cs0]|]; try discriminate.
+    destruct j; discriminate || (inversion HH). }
+  destruct d as [|l|tn flds|items|]; try discriminate.
+  - destruct t as [n|it|t']; intro H; try (inversion H; subst; split; reflexivity).
+    exfalso. eapply HN. exact H.
+  - destruct t as [n|it|t']; intro H; try discriminate; [|exfalso; eapply HN; exact H].
+    exfalso. destruct (lookup_type s n) as [[sc|vals| | |]|]; try discriminate.
+    + destruct (complete_leaf (TScalar sc) l) as [j|] eqn:E; [|discriminate].
+      inversion H; subst. destruct sc, l; cbn in E; try discriminate;
+        try (destruct (in_int_range z)); discriminate.
+    + destruct (complete_leaf (TEnum vals) l) as [j|] eqn:E; [|discriminate].
+      inversion H; subst. destruct l; cbn in E; try discriminate. destruct (mem s0 vals); discriminate.
+  - destruct t as [n|it|t']; intro H; try discriminate; [|exfalso; eapply HN; exact H].
+    exfalso. destruct (lookup_type s n) as [[| |ofs ifs|ifs|ms]|]; try discriminate.
+    + eapply HS. exact H.
+    + destruct (is_object s tn && possible s n tn); [eapply HS; exact H | discriminate].
+    + destruct (is_object s tn && possible s n tn); [eapply HS; exact H | discriminate].
+  - destruct t as [n|it|t']; intro H; [| |exfalso; eapply HN; exact H].
+    + destruct (lookup_type s n) as [[| | | |]|]; discriminate.
+    + destruct (complete_items _ items O) as [[[[js|] es0] cs0]|]; discriminate.
+Qed.
+
+(* a null in a field position: either the resolved value is null and nothing went wrong below, or
+   an error at or below this field was recorded *)
+Theorem field_null_accounted s frags cv fuel rt obj f1 fs es cs :
+  exec_field s frags cv fuel rt obj (f1 :: fs) = Some (FRes (CVal JNull, es, cs)) ->
+  (match lookup (fs_name f1) obj with Some d => d | None => DNull end = DNull /\ es = []) \/ es <> [].
+Proof.
+  destruct fuel as [|f]; [discriminate|]. rewrite exec_field_S.
+  destruct (str_eqb (fs_name f1) n_typename); [discriminate|].
+  destruct (lookup_field s rt (fs_name f1)) as [fd|]; [|discriminate].
+  destruct (coerce_args s cv (f_args fd) (fs_args f1)) as [args|].
+  - destruct (complete s frags cv f (f_type fd) (merged_sels (f1 :: fs)) _) as [[[r es0] cs0]|] eqn:Ec;
+      [|discriminate].
+    destruct r as [j|]; cbn [catch].
+    + intro H. inversion H; subst. apply complete_null in Ec. left. exact Ec.
+    + destruct (exec_invariants s frags cv f) as [_ [_ [_ Hc]]].
+      specialize (Hc _ _ _ _ Ec). cbn in Hc. destruct Hc as [_ Hne].
+      destruct (is_nonnull (f_type fd)); [discriminate|]. intro H. inversion H; subst. right. exact Hne.
+  - cbn. destruct (is_nonnull (f_type fd)); [discriminate|]. intro H. inversion H; subst. right. discriminate.
 Qed.
